@@ -79,6 +79,8 @@ def gen_world(rng: random.Random):
     else:
         cls = rng.choice(["FDD", "FDD", "EFDD", "FSDD"])
         source = "run" if (cls in ("EFDD", "FSDD") or r < 0.6) else "table"
+    if source == "table" and cls in ("SSIcov", "SSIdat", "pLSCF", "FDD") and rng.random() < 0.2:
+        cls += "_MS"  # the multi-setup classes inherit the dialog and the extraction: same behaviour expected
     fs = rng.choice([20.0, 50.0, 100.0, 128.0])
     w = {"variant": variant, "cls": cls, "source": source, "fs": fs, "seed": rng.getrandbits(40)}
     if source == "run":
